@@ -17,10 +17,14 @@ import (
 
 const arbMaxColl = 2
 
-// collChoices: nil / empty / 1 / 2 entries at the top two levels of a value,
+// collChoices: nil / empty / 1 / 2 entries at the top three levels of a value,
 // nil / empty / 1 entry below (bounds stated in DESIGN 6).
-func collChoices(depth int) int {
-	if depth <= 1 {
+func (p *Path) collChoices(depth int) int {
+	lim := 1
+	if p.E.Cfg.ArbWide {
+		lim = 2
+	}
+	if depth <= lim {
 		return arbMaxColl + 2
 	}
 	return 3
@@ -104,7 +108,7 @@ func (p *Path) arbitrary(t types.Type, name string, depth int, site ssa.Instruct
 		return PtrV{Obj: o, Type: t}
 	case *types.Slice:
 		// nil, or length 0..arbMaxColl
-		c := p.choose(name+".len", collChoices(depth))
+		c := p.choose(name+".len", p.collChoices(depth))
 		p.inputs = append(p.inputs, &Input{Name: name + ".len", Kind: "choose", Conc: c})
 		if c == 0 {
 			return p.zero(t)
@@ -122,7 +126,7 @@ func (p *Path) arbitrary(t types.Type, name string, depth int, site ssa.Instruct
 		o := p.newObj(nil, ArrayV{E: es})
 		return SliceV{Arr: o, Len: n, Cap: n}
 	case *types.Map:
-		c := p.choose(name+".len", collChoices(depth))
+		c := p.choose(name+".len", p.collChoices(depth))
 		p.inputs = append(p.inputs, &Input{Name: name + ".len", Kind: "choose", Conc: c})
 		if c == 0 {
 			return MapV{}
